@@ -272,7 +272,27 @@ def entry_points():
                 m.add("V", "x86_64", "pkg-0:1-1.x86_64", "p/x.rpm", None, "binary", s)
         return f
 
+    def rpms_sigkey(s):
+        import productmd.rpms
+        productmd.rpms.Rpms().add("V", "x86_64", "pkg-0:1-1.x86_64", "p/x.rpm", s, "binary", "srcpkg-0:1-1.src")
+
+    def location(kind):
+        # a location given as TEXT (path or URL; the worker's urlopen answers every URL with an error at once)
+        def f(s):
+            import productmd.compose
+            import productmd.composeinfo
+            import productmd.treeinfo
+            if kind == "load":
+                productmd.composeinfo.ComposeInfo().load(s)
+            elif kind == "treeinfo":
+                productmd.treeinfo.TreeInfo().load(s)
+            else:
+                productmd.compose.Compose(s).info
+        return f
+
     eps = {
+        "Rpms.add(sigkey)": rpms_sigkey,
+        "ComposeInfo.load(location)": location("load"), "TreeInfo.load(location)": location("treeinfo"), "Compose(location).info": location("compose"),
         "Image.volume_id": image_field("volume_id"), "Image.subvariant": image_field("subvariant"), "Image.path": image_field("path"),
         "Image.type": image_field("type"), "Image.arch": image_field("arch"),
         "Rpms.add(nevra)": rpms_add("nevra"), "Rpms.add(srpm_nevra)": rpms_add("srpm"),
@@ -327,6 +347,17 @@ def entry_points():
 
 def _worker(conn):
     core.import_repo()
+    try:
+        # no network: every URL is answered with an error at once (what matters is the time spent BEFORE anything is fetched)
+        import productmd.common
+        import urllib.error
+
+        def _no_net(url, *a, **kw):
+            raise urllib.error.URLError("no network in the sandbox")
+        productmd.common.six.moves.urllib.request.urlopen = _no_net
+        os.chdir("/")            # relative location texts are only ever read
+    except Exception:
+        pass
     eps = entry_points()
     while True:
         msg = conn.recv()
